@@ -233,7 +233,10 @@ class BracedNameToken(XPathToken):
             namespace = ''
         else:
             value = self.parser.next_token.value
-            assert isinstance(value, str)
+            if not isinstance(value, str):
+                # a numeric literal: use its source text
+                start, end = self.parser.next_token.span
+                value = self.parser.source[start:end]
             namespace = value + self.parser.advance_until('}')
             namespace = collapse_white_spaces(namespace)
 
